@@ -34,7 +34,7 @@ _CONTROL = (_Return, _Break, _Continue, PyExc, Unsupported, PathInfeasible, Path
 
 
 class Frame:
-    __slots__ = ("locals", "parent", "module", "func", "gdecl", "nldecl", "yields", "is_module", "loop_n", "qual")
+    __slots__ = ("locals", "parent", "module", "func", "gdecl", "nldecl", "yields", "is_module", "loop_n", "qual", "is_class")
 
     def __init__(self, module, parent=None, func=None, qual=""):
         self.locals = {}
@@ -45,6 +45,7 @@ class Frame:
         self.nldecl = set()
         self.yields = None
         self.is_module = False
+        self.is_class = False
         self.loop_n = 0
         self.qual = qual
 
@@ -291,6 +292,35 @@ class IExcValue:
         return ", ".join(str(a) for a in self.args)
 
 
+class SymStr(str):
+    """A formatted string with symbolic fields: behaves as the placeholder text natively; `.parts` keeps the
+    literal pieces and (value, format_spec, conversion) fields for contracts that reason about the text."""
+
+    def __new__(cls, text, parts):
+        o = super().__new__(cls, text)
+        o.parts = list(parts)
+        return o
+
+
+class OpaqueFn:
+    """An uninterpreted function value: may be passed around and wrapped in functools.partial, never executed."""
+
+    _pyvc_opaque = True
+    _pyvc_is_gen = False
+
+    def __init__(self, label, keywords=()):
+        self._label = label
+        self.keywords = tuple(keywords)
+        self._pyvc_keywords = tuple(keywords)
+        self.__name__ = label
+
+    def __call__(self, *a, **k):
+        raise Unsupported(f"call of uninterpreted function {self._label}")
+
+    def __repr__(self):
+        return f"<opaque-fn {self._label}>"
+
+
 class Opaque:
     """An uninterpreted object (a block function, a dtype, a store ...): identity only."""
 
@@ -375,6 +405,8 @@ class Interp:
     # ------------------------------------------------------------------ definitions
     def make_def(self, node, frame, module):
         qual_prefix = frame.qual if frame is not None else module.name + ":"
+        if frame is not None and frame.is_class:
+            frame = frame.parent  # class bodies are not part of the lexical scope of their methods
         if isinstance(node, ast.ClassDef):
             return self.make_class(node, frame, module, qual_prefix)
         qual = qual_prefix + node.name if qual_prefix.endswith(":") else qual_prefix + "." + node.name
@@ -411,6 +443,7 @@ class Interp:
                 bv = None
             bases.append(bv)
         cfr = Frame(module, parent=frame, qual=qual)
+        cfr.is_class = True
         dataclass = None
         for dec in node.decorator_list:
             dn = _dec_name(dec)
@@ -440,6 +473,7 @@ class Interp:
                 self.call(init, [obj] + args, kwargs)
             return obj
         obj = IObj(cls, {})
+        self.ctx.effect("alloc", id(obj), cls.name)
         init, _ = cls.lookup("__init__")
         if init is not None:
             self.call(init, [obj] + args, kwargs)
@@ -1338,14 +1372,20 @@ class Interp:
 
     def e_JoinedStr(self, n, fr):
         parts = []
+        sparts = []
         for v in n.values:
             if isinstance(v, ast.Constant):
                 parts.append(str(v.value))
+                sparts.append(str(v.value))
             else:
                 try:
                     val = self.eval(v.value, fr)
                     if deep_sym(val):
                         parts.append("<sym>")
+                        fs = ""
+                        if v.format_spec is not None:
+                            fs = self.e_JoinedStr(v.format_spec, fr)
+                        sparts.append((val, str(fs), v.conversion))
                     else:
                         spec = ""
                         if v.format_spec is not None:
@@ -1355,10 +1395,14 @@ class Interp:
                         elif v.conversion == ord("s"):
                             val = str(val)
                         parts.append(format(val, spec))
+                        sparts.append(parts[-1])
                 except _CONTROL:
                     raise
                 except Exception:  # noqa: BLE001
                     parts.append("<fmt>")
+                    sparts.append("<fmt>")
+        if any(isinstance(p, tuple) for p in sparts):
+            return SymStr("".join(parts), sparts)
         return "".join(parts)
 
     def e_FormattedValue(self, n, fr):
